@@ -69,7 +69,7 @@ GNAME = URIRef(E + "g1")
 ROUTES = ["triples", "so", "so_unique", "so_list", "value", "slice", "resource", "eval_direct", "interleave", "interleave_b",
           "ds_union", "ds_default", "ds_named", "agg", "in_agg", "in_ds", "sparql_const", "sparql_values",
           "sparql_tree", "sparql_init", "sparql_ds_union", "sparql_ds_default", "sparql_ds_graph", "sparql_ds_init",
-          "sparql_agg", "sparql_agg_values", "sparql_agg_init", "sparql_n3"]
+          "sparql_agg", "sparql_agg_values", "sparql_agg_init", "sparql_n3", "api"]
 FULL, DEFAULT, NAMED, AGG = 0, 1, 2, 3
 ROUTE_GRAPH = {"so_unique": FULL, "so_list": FULL, "value": FULL, "slice": FULL, "resource": FULL, "eval_direct": FULL,
                "interleave": FULL, "interleave_b": DEFAULT,
@@ -77,7 +77,7 @@ ROUTE_GRAPH = {"so_unique": FULL, "so_list": FULL, "value": FULL, "slice": FULL,
                "in_agg": AGG, "in_ds": FULL,
                "sparql_const": FULL, "sparql_values": FULL, "sparql_tree": FULL, "sparql_init": FULL,
                "sparql_ds_union": FULL, "sparql_ds_default": DEFAULT, "sparql_ds_graph": NAMED, "sparql_ds_init": FULL,
-               "sparql_agg": AGG, "sparql_agg_values": AGG, "sparql_agg_init": AGG, "sparql_n3": FULL}
+               "sparql_agg": AGG, "sparql_agg_values": AGG, "sparql_agg_init": AGG, "sparql_n3": FULL, "api": FULL}
 GNAME2 = URIRef(E + "g2")
 
 
@@ -856,7 +856,7 @@ def gen_case(rng, tier, i):
     if rng.random() < 0.15:
         o = s
     ends = [[None, None], [s, None], [None, o], [s, o]]
-    routes = ["triples", "so", "agg", "in_agg", "sparql_n3"]
+    routes = ["triples", "so", "agg", "in_agg", "sparql_n3", "api"]
     routes += rng.sample(["so_unique", "so_list", "value", "slice", "resource", "eval_direct", "interleave"],
                          2 if tier == "quick" else 4)
     if "interleave" in routes:
@@ -1129,6 +1129,43 @@ def _build_env(case, parts):
     return env
 
 
+def _api_line(env, ast, s, o, T, viol):
+    """round g: the Graph API entry points with the path as predicate, one canonical line (see Drive.lean `api`)"""
+    g, P = env["g"], env["path"]
+    S, O = (None if s is None else TERM[s]), (None if o is None else TERM[o])
+    terms = lambda xs: " ".join(str(i) for i in sorted(REV[x] for x in xs))  # noqa: E731
+    pairs = lambda ps: " ".join("%d,%d" % p for p in sorted((REV[a], REV[b]) for a, b in ps))  # noqa: E731
+    want = expected(ast, T, s, o)
+    if S is not None and O is not None:
+        got = (S, P, O) in g
+        if got != bool(want):
+            tag = relation_tag(ast, T, s, o, {(s, o)} if got else set())
+            viol.append(f"{tag}: route api `in` path {ast} ends ({s},{o}) on {T}: {got}, expected {bool(want)}")
+        return "in|" + ("T" if got else "F")
+    if S is None and O is None:
+        plain, uq = list(g.subject_objects(P)), list(g.subject_objects(P, unique=True))
+        if len(uq) != len(set(uq)):
+            viol.append(f"uniq: subject_objects(path, unique=True) yields duplicates, path {ast} on {T}")
+        if set(uq) != set(plain):
+            viol.append(f"uniq: subject_objects(path, unique=True) differs from unique=False as a set, path {ast} on {T}")
+        return "so|" + pairs(set(plain)) + "|uniq|" + pairs(uq)
+    if O is None:
+        plain, uq = list(g.objects(S, P)), list(g.objects(S, P, unique=True))
+        twice, val, name = list(g.objects([S, S], P, unique=True)), g.value(S, P), "objs"
+    else:
+        plain, uq = list(g.subjects(P, O)), list(g.subjects(P, O, unique=True))
+        twice, val, name = list(g.subjects(P, [O, O], unique=True)), g.value(None, P, O), "subjs"
+    if len(uq) != len(set(uq)):
+        viol.append(f"uniq: {name}(…, unique=True) yields duplicates, path {ast} ends ({s},{o}) on {T}")
+    if set(uq) != set(plain):
+        viol.append(f"uniq: {name}(…, unique=True) differs from unique=False as a set, path {ast} ends ({s},{o}) on {T}")
+    if sorted(REV[x] for x in twice) != sorted(2 * [REV[x] for x in uq]):
+        viol.append(f"uniq: {name} over the list [x, x] is not twice the answer for x, path {ast} ends ({s},{o}) on {T}")
+    if (val is None) != (not plain) or (val is not None and val not in plain):
+        viol.append(f"value: Graph.value gives {val!r}, answers {plain!r}, path {ast} ends ({s},{o}) on {T}")
+    return "%s|%s|uniq|%s|twice|%s|value|%d" % (name, terms(set(plain)), terms(uq), terms(twice), int(val is not None))
+
+
 def _line(pairs, closure):
     ps = sorted(pairs) if closure else sorted(set(pairs))
     return "T|" + " ".join("%d,%d" % p for p in ps)
@@ -1256,6 +1293,9 @@ def run_impl(case):
                 if x not in used:
                     stats["end_absent"] = stats.get("end_absent", 0) + 1
         try:
+            if route == "api":
+                obs.append(_api_line(env, ast, s, o, T, viol))
+                continue
             got = _run_route(route, env, ast, s, o)
         except core.CaseTimeout:
             raise
@@ -1362,6 +1402,10 @@ def model_lines(case):
         except Exception as e:
             words = "unwritten " + type(e).__name__
         lines.append("readn3 " + words)
+    if "api" in case["routes"]:
+        lines.append("graph " + " ".join("%d,%d,%d" % t for t in parts[FULL]))
+        for s, o in case["ends"]:
+            lines.append(f"api {_w(s)} {_w(o)} {toks}")
     return lines
 
 
@@ -1396,7 +1440,11 @@ def select_model_obs(case, out):
     for bi, (s, o) in enumerate(case["ends"]):
         pos.setdefault((s, o), bi)
     n3_base = 4 * (n + 1) + ((n + 1) if "sparql_tree" in case["routes"] and not has_empty_alt(case["path"]) else 0)
+    api_base = n3_base + ((n + 3) if "sparql_n3" in case["routes"] else 0)
     for s, o, route in plan:
+        if route == "api":
+            res.append(out[api_base + 1 + pos[(s, o)]])
+            continue
         if route == "sparql_tree":
             line = out[4 * (n + 1) + 1 + pos[(s, o)]]
         elif route == "sparql_n3":
